@@ -5,10 +5,14 @@
 //! thread; the run ends with the shutdown signal. The H4 tracer (`humphrey_ws::verif::app_event`) records
 //! what the loop saw and did. Every scenario runs in a child process (`hv __c12child`) under a watchdog.
 //!
-//! Case line: `app <TAB> scenario <TAB> out`, `out = summary|h4log|execlog|frames|consumed`.
+//! Case line: `app <TAB> scenario <TAB> out`, `out = summary|h4log|execlog|frames|consumed|closed`.
 //!
 //! scenario = `t=<handler threads>;p=<poll µs or none>;h=<interval ms>.<timeout ms> or -;ca=<0..3>;da=<0..1>;`
-//!            `ap=<0|1>;q=<0|1>;cl=<client>/<client>/…;tl=<step>,<step>,…`
+//!            `ap=<0|1>;q=<0|1>;hs=<handlers>;cl=<client>/<client>/…;tl=<step>,<step>,…`
+//!   handlers = the handlers registered on the app: a subset of the letters `c` (connect), `m` (message),
+//!             `d` (disconnect), `-` for none. A scenario without `hs=` (older case lines) registers all three.
+//!             An unregistered handler is simply not given to the builder; `ca` / `da` and the message
+//!             handler's behaviour then have no effect.
 //!   client  = items joined by `,` (`-` = none; the end of the list is the end of the connection = EOF):
 //!             `T<hex>` / `B<hex>` text / binary message in one frame, `f<k>T<hex>` in k fragments,
 //!             `g<k>T<hex>` in k fragments with a Ping and a pause after the first, `n` a moment at which
@@ -28,7 +32,8 @@
 //!   recipients, `S` shutdown seen, `X` loop left, `*<n>` the preceding iteration (which saw and did nothing)
 //!   happened n more times.
 //! execlog: `c<a>` / `m<a>:T<hex>` / `d<a>` in the order in which the handlers started to run.
-//! frames: `<id>=<hex of write 1>.<hex of write 2>…` joined by `,`; consumed: ids whose script was read to its end.
+//! frames: `<id>=<hex of write 1>.<hex of write 2>…` joined by `,`; consumed: ids whose script was read to its end;
+//! closed: ids whose scripted socket was closed (the stream dropped) before the loop was left.
 //! summary: `returned;exec=<handler runs>;data=<data frames written>;pings=<ping frames written>` or `WEDGED`.
 use crate::c11::Ev;
 use crate::common::*;
@@ -55,6 +60,21 @@ const BASE_PORT: u16 = 41000;
 pub struct SockShared {
     pub writes: Vec<Vec<u8>>,
     pub left: usize,
+    /// the socket was closed (dropped by its owner) while the loop was still running
+    pub closed_in_loop: bool,
+}
+
+/// Set by the tracer when the loop is left (`LoopExit`), cleared when a run starts.
+static LOOP_LEFT: AtomicBool = AtomicBool::new(false);
+
+impl Drop for Sock {
+    fn drop(&mut self) {
+        if !LOOP_LEFT.load(Ordering::SeqCst) {
+            if let Ok(mut sh) = self.shared.lock() {
+                sh.closed_in_loop = true;
+            }
+        }
+    }
 }
 
 pub struct Sock {
@@ -68,7 +88,7 @@ pub struct Sock {
 
 impl Sock {
     fn new(evs: Vec<Ev>, id: usize, autopong: bool) -> (Sock, Arc<Mutex<SockShared>>) {
-        let shared = Arc::new(Mutex::new(SockShared { writes: Vec::new(), left: evs.len() }));
+        let shared = Arc::new(Mutex::new(SockShared { writes: Vec::new(), left: evs.len(), closed_in_loop: false }));
         let addr: SocketAddr = format!("127.0.0.1:{}", BASE_PORT as usize + id).parse().unwrap();
         (Sock { evs: evs.into(), off: 0, nonblocking: AtomicBool::new(false), addr, autopong, shared: shared.clone() }, shared)
     }
@@ -191,8 +211,51 @@ struct Scn {
     da: u8,
     ap: bool,
     wait_gone: bool,
+    /// the handlers registered on the app: bit 0 connect, bit 1 message, bit 2 disconnect
+    hs: u8,
     clients: Vec<Vec<It>>,
     tl: Vec<(u64, Act)>,
+}
+
+const HS_C: u8 = 1;
+const HS_M: u8 = 2;
+const HS_D: u8 = 4;
+const HS_ALL: u8 = 7;
+
+fn hs_text(hs: u8) -> String {
+    let mut t = String::new();
+    if hs & HS_C != 0 {
+        t.push('c');
+    }
+    if hs & HS_M != 0 {
+        t.push('m');
+    }
+    if hs & HS_D != 0 {
+        t.push('d');
+    }
+    if t.is_empty() {
+        t.push('-');
+    }
+    t
+}
+
+fn parse_hs(v: &str) -> Option<u8> {
+    let mut hs = 0;
+    for c in v.chars() {
+        match c {
+            'c' => hs |= HS_C,
+            'm' => hs |= HS_M,
+            'd' => hs |= HS_D,
+            '-' => {}
+            _ => return None,
+        }
+    }
+    Some(hs)
+}
+
+/// The generated dimension: all 8 subsets occur, half of the draws are the full set.
+fn gen_hs(rng: &mut Rng) -> u8 {
+    if rng.chance(1, 2) { HS_ALL } else { rng.below(8) as u8 }
 }
 
 fn tb(text: bool) -> char {
@@ -227,7 +290,7 @@ fn act_text(a: &Act) -> String {
 
 fn scn_text(s: &Scn) -> String {
     format!(
-        "t={};p={};h={};ca={};da={};ap={};q={};cl={};tl={}",
+        "t={};p={};h={};ca={};da={};ap={};q={};hs={};cl={};tl={}",
         s.threads,
         s.poll.map(|x| x.to_string()).unwrap_or_else(|| "none".into()),
         s.hb.map(|(a, b)| format!("{}.{}", a, b)).unwrap_or_else(|| "-".into()),
@@ -235,6 +298,7 @@ fn scn_text(s: &Scn) -> String {
         s.da,
         s.ap as u8,
         s.wait_gone as u8,
+        hs_text(s.hs),
         s.clients
             .iter()
             .map(|c| if c.is_empty() { "-".into() } else { c.iter().map(it_text).collect::<Vec<_>>().join(",") })
@@ -331,6 +395,10 @@ fn parse_scn(s: &str) -> Option<Scn> {
         da: kv.get("da")?.parse().ok()?,
         ap: *kv.get("ap")? == "1",
         wait_gone: *kv.get("q")? == "1",
+        hs: match kv.get("hs") {
+            None => HS_ALL,
+            Some(v) => parse_hs(v)?,
+        },
         clients,
         tl,
     })
@@ -389,6 +457,10 @@ struct Trace {
     prev: Vec<String>,
     repeat: u64,
     quiet_iters: u64,
+    /// consecutive iterations in which the loop saw or did something
+    busy_streak: u64,
+    /// messages received (whether or not a message handler exists)
+    recv_msgs: u64,
     dispatched: u64,
     removed: HashSet<usize>,
     admitted: HashSet<usize>,
@@ -409,6 +481,8 @@ impl Trace {
             prev: Vec::new(),
             repeat: 0,
             quiet_iters: 0,
+            busy_streak: 0,
+            recv_msgs: 0,
             dispatched: 0,
             removed: HashSet::new(),
             admitted: HashSet::new(),
@@ -423,8 +497,10 @@ impl Trace {
         }
         if self.cur_quiet {
             self.quiet_iters += 1;
+            self.busy_streak = 0;
         } else {
             self.quiet_iters = 0;
+            self.busy_streak += 1;
         }
         if self.cur_idle && self.cur == self.prev {
             self.repeat += 1;
@@ -471,6 +547,7 @@ impl Trace {
                 self.flush_repeat();
                 self.log.push("X".into());
                 self.exited = true;
+                LOOP_LEFT.store(true, Ordering::SeqCst);
             }
             WillPing(b) => {
                 if b {
@@ -481,6 +558,7 @@ impl Trace {
             Recv(a, RecvSummary::None) => self.cur.push(format!("r{}:N", id_of(&a))),
             Recv(a, RecvSummary::Message(t, p)) => {
                 self.busy();
+                self.recv_msgs += 1;
                 self.cur.push(format!("r{}:{}", id_of(&a), m(t, &p)));
             }
             Recv(a, RecvSummary::Err(closed)) => {
@@ -620,8 +698,13 @@ fn opcode_class(w: &[u8]) -> u8 {
     w.first().map(|b| b & 0x0f).unwrap_or(255)
 }
 
+/// So many consecutive iterations that saw or did something, after all input has been consumed: the loop is
+/// not going to come to rest (a correct loop has finitely much to do then: the handlers' sends, removals).
+const RESTLESS: u64 = 400;
+
 /// Run one scenario in this process (at most one unclean run per process).
 fn run_scn(s: &Scn) -> RunOut {
+    LOOP_LEFT.store(false, Ordering::SeqCst);
     *TRACE.lock().unwrap_or_else(|e| e.into_inner()) = Some(Trace::new());
     install_app_sink(Box::new(|_seq, ev| {
         if let Some(t) = TRACE.lock().unwrap_or_else(|e| e.into_inner()).as_mut() {
@@ -635,16 +718,23 @@ fn run_scn(s: &Scn) -> RunOut {
     let threads = s.threads;
     let poll = s.poll.map(Duration::from_micros);
     let hb = s.hb;
+    let hs = s.hs;
     let st2 = state.clone();
     let helper = std::thread::Builder::new()
         .name("c12-app".into())
         .spawn(move || {
-            let mut app: AsyncWebsocketApp<Arc<HState>> = AsyncWebsocketApp::new_unlinked_with_config(st2, threads)
-                .with_polling_interval(poll)
-                .with_shutdown(shutdown_rx)
-                .with_connect_handler(|s: AsyncStream, st: Arc<Arc<HState>>| on_connect(s, (*st).clone()))
-                .with_disconnect_handler(|s: AsyncStream, st: Arc<Arc<HState>>| on_disconnect(s, (*st).clone()))
-                .with_message_handler(|s: AsyncStream, m: Message, st: Arc<Arc<HState>>| on_message(s, m, (*st).clone()));
+            let mut app: AsyncWebsocketApp<Arc<HState>> =
+                AsyncWebsocketApp::new_unlinked_with_config(st2, threads).with_polling_interval(poll).with_shutdown(shutdown_rx);
+            // only the handlers of the scenario are registered; the others stay `None`
+            if hs & HS_C != 0 {
+                app = app.with_connect_handler(|s: AsyncStream, st: Arc<Arc<HState>>| on_connect(s, (*st).clone()));
+            }
+            if hs & HS_D != 0 {
+                app = app.with_disconnect_handler(|s: AsyncStream, st: Arc<Arc<HState>>| on_disconnect(s, (*st).clone()));
+            }
+            if hs & HS_M != 0 {
+                app = app.with_message_handler(|s: AsyncStream, m: Message, st: Arc<Arc<HState>>| on_message(s, m, (*st).clone()));
+            }
             if let Some((i, t)) = hb {
                 app = app.with_heartbeat(Heartbeat::new(Duration::from_millis(i), Duration::from_millis(t)));
             }
@@ -655,7 +745,7 @@ fn run_scn(s: &Scn) -> RunOut {
         .expect("spawn app thread");
     let (hook, sender): (_, AsyncSender) = match hook_rx.recv_timeout(WATCHDOG) {
         Ok(x) => x,
-        Err(_) => return RunOut { out: "WEDGED||||".into(), clean: false },
+        Err(_) => return RunOut { out: "WEDGED|||||".into(), clean: false },
     };
     let mut socks: Vec<Option<Sock>> = Vec::new();
     let mut shared: Vec<Arc<Mutex<SockShared>>> = Vec::new();
@@ -688,12 +778,12 @@ fn run_scn(s: &Scn) -> RunOut {
         let consumed = connected.iter().all(|i| shared[*i].lock().unwrap().left == 0);
         let execs = state.log.lock().unwrap().len() as u64;
         with_trace(|t| {
+            let fed = consumed && connected.iter().all(|i| t.admitted.contains(i)) && t.dispatched == execs;
             t.overflow
-                || consumed
-                && connected.iter().all(|i| t.admitted.contains(i))
-                && t.quiet_iters >= 2
-                && t.dispatched == execs
-                && (!need_gone || connected.iter().all(|i| t.removed.contains(i)))
+                || fed && t.quiet_iters >= 2 && (!need_gone || connected.iter().all(|i| t.removed.contains(i)))
+                // everything has been fed and the loop still finds something to do in every iteration: it will
+                // not come to rest (the log shows why), waiting longer only makes the log longer
+                || fed && t.busy_streak >= RESTLESS
         })
         .unwrap_or(true)
     };
@@ -726,15 +816,19 @@ fn run_scn(s: &Scn) -> RunOut {
     };
     if overflow {
         // the loop keeps doing something in every iteration: the log is useless beyond this point
-        return RunOut { out: format!("OVERFLOW|{}|||", log.split(' ').take(400).collect::<Vec<_>>().join(" ")), clean: false };
+        return RunOut { out: format!("OVERFLOW|{}||||", log.split(' ').take(400).collect::<Vec<_>>().join(" ")), clean: false };
     }
     let exec = state.log.lock().unwrap().clone();
     let mut frames = Vec::new();
     let mut data = 0usize;
     let mut pings = 0usize;
     let mut consumed = Vec::new();
+    let mut closed = Vec::new();
     for (i, sh) in shared.iter().enumerate() {
         let sh = sh.lock().unwrap();
+        if sh.closed_in_loop {
+            closed.push(i.to_string());
+        }
         if !sh.writes.is_empty() {
             frames.push(format!("{}={}", i, sh.writes.iter().map(|w| hex(w)).collect::<Vec<_>>().join(".")));
         }
@@ -745,22 +839,27 @@ fn run_scn(s: &Scn) -> RunOut {
         }
     }
     let summary = if returned { format!("returned;exec={};data={};pings={}", exec.len(), data, pings) } else { "WEDGED".to_string() };
-    RunOut { out: format!("{}|{}|{}|{}|{}", summary, log, exec.join(" "), frames.join(","), consumed.join(",")), clean: returned }
+    RunOut {
+        out: format!("{}|{}|{}|{}|{}|{}", summary, log, exec.join(" "), frames.join(","), consumed.join(","), closed.join(",")),
+        clean: returned,
+    }
 }
 
 /* ---------------------------------------------------------------- real sockets */
 
-/// `real` scenario: `t=<threads>;p=<poll µs>;n=<clients>;m=<messages per client>`: the internal Humphrey app on
-/// a free loopback port, reference clients doing the HTTP upgrade and sending masked frames. Clients send
-/// their messages (`<client><k>` as text; first byte chosen so that the handler echoes), read the echoes, then
-/// every client but the last closes. Addresses are ephemeral ports, mapped to client ids through the greeting.
-fn run_real(threads: usize, poll: u64, n: usize, m: usize) -> RunOut {
+/// `real` scenario: `t=<threads>;p=<poll µs>;n=<clients>;m=<messages per client>[;hs=<handlers>]`: the internal
+/// Humphrey app on a free loopback port, reference clients doing the HTTP upgrade and sending masked frames.
+/// Clients read the greeting (if a connect handler is registered), send their messages (`<client><k>` as text;
+/// first byte chosen so that the handler echoes), read the echoes (if a message handler is registered), then
+/// every client but the last closes and reads the answering Close. Addresses are ephemeral ports.
+fn run_real(threads: usize, poll: u64, n: usize, m: usize, hs: u8) -> RunOut {
     use std::net::{TcpListener, TcpStream};
+    LOOP_LEFT.store(false, Ordering::SeqCst);
     *TRACE.lock().unwrap_or_else(|e| e.into_inner()) = Some(Trace::new());
     // a free port
     let port = match TcpListener::bind("127.0.0.1:0").and_then(|l| l.local_addr()) {
         Ok(a) => a.port(),
-        Err(_) => return RunOut { out: "NOPORT||||".into(), clean: true },
+        Err(_) => return RunOut { out: "NOPORT|||||".into(), clean: true },
     };
     // ids: the clients' local ports are not known in advance, so the log uses `port - BASE_PORT` as they come;
     // the harness rewrites them to 0..n-1 afterwards
@@ -776,13 +875,19 @@ fn run_real(threads: usize, poll: u64, n: usize, m: usize) -> RunOut {
     let helper = std::thread::Builder::new()
         .name("c12-real".into())
         .spawn(move || {
-            let app: AsyncWebsocketApp<Arc<HState>> = AsyncWebsocketApp::new_with_config(st2, threads, 2)
+            let mut app: AsyncWebsocketApp<Arc<HState>> = AsyncWebsocketApp::new_with_config(st2, threads, 2)
                 .with_address(("127.0.0.1", port))
                 .with_polling_interval(Some(Duration::from_micros(poll)))
-                .with_shutdown(shutdown_rx)
-                .with_connect_handler(|s: AsyncStream, st: Arc<Arc<HState>>| on_connect(s, (*st).clone()))
-                .with_disconnect_handler(|s: AsyncStream, st: Arc<Arc<HState>>| on_disconnect(s, (*st).clone()))
-                .with_message_handler(|s: AsyncStream, m: Message, st: Arc<Arc<HState>>| on_message(s, m, (*st).clone()));
+                .with_shutdown(shutdown_rx);
+            if hs & HS_C != 0 {
+                app = app.with_connect_handler(|s: AsyncStream, st: Arc<Arc<HState>>| on_connect(s, (*st).clone()));
+            }
+            if hs & HS_D != 0 {
+                app = app.with_disconnect_handler(|s: AsyncStream, st: Arc<Arc<HState>>| on_disconnect(s, (*st).clone()));
+            }
+            if hs & HS_M != 0 {
+                app = app.with_message_handler(|s: AsyncStream, m: Message, st: Arc<Arc<HState>>| on_message(s, m, (*st).clone()));
+            }
             app.run();
             let _ = done_tx.send(());
         })
@@ -853,7 +958,7 @@ fn run_real(threads: usize, poll: u64, n: usize, m: usize) -> RunOut {
         let lp = s.local_addr().map(|a| id_of(&a)).unwrap_or(0);
         clients.push((s, lp, Vec::new()));
     }
-    if ok {
+    if ok && hs & HS_C != 0 {
         // greeting (connect handler, ca = 1)
         for c in clients.iter_mut() {
             match read_frame(&mut c.0) {
@@ -887,10 +992,12 @@ fn run_real(threads: usize, poll: u64, n: usize, m: usize) -> RunOut {
                     ok = false;
                 }
             }
-            for c in clients.iter_mut() {
-                match read_frame(&mut c.0) {
-                    Some((h, p)) => c.2.push(raw(h, &p)),
-                    None => ok = false,
+            if hs & HS_M != 0 {
+                for c in clients.iter_mut() {
+                    match read_frame(&mut c.0) {
+                        Some((h, p)) => c.2.push(raw(h, &p)),
+                        None => ok = false,
+                    }
                 }
             }
         }
@@ -905,10 +1012,21 @@ fn run_real(threads: usize, poll: u64, n: usize, m: usize) -> RunOut {
             }
         }
     }
-    let want = if ok { (n + n * m + n.saturating_sub(1)) as u64 } else { 0 };
+    // handler runs expected, and what the loop itself must have seen by then (tracer), handlers or not
+    let gone = n.saturating_sub(1);
+    let want_c = if hs & HS_C != 0 { n } else { 0 };
+    let want_m = if hs & HS_M != 0 { n * m } else { 0 };
+    let want_d = if hs & HS_D != 0 { gone } else { 0 };
+    let want = if ok { (want_c + want_m + want_d) as u64 } else { 0 };
     wait_until(Duration::from_millis(1500), || {
         let execs = state.log.lock().unwrap().len() as u64;
-        with_trace(|t| t.dispatched == execs && execs >= want && t.quiet_iters >= 2).unwrap_or(true)
+        with_trace(|t| {
+            let fed = t.dispatched == execs
+                && execs >= want
+                && (!ok || t.admitted.len() >= n && t.recv_msgs >= (n * m) as u64 && t.removed.len() >= gone);
+            fed && t.quiet_iters >= 2 || t.overflow || t.dispatched == execs && execs >= want && t.busy_streak >= RESTLESS
+        })
+        .unwrap_or(true)
     });
     let _ = shutdown_tx.send(());
     let returned = done_rx.recv_timeout(WATCHDOG).is_ok();
@@ -944,16 +1062,20 @@ fn run_real(threads: usize, poll: u64, n: usize, m: usize) -> RunOut {
         "WEDGED".to_string()
     };
     // the port stays bound by the detached Humphrey app thread: one real run per process
-    RunOut { out: format!("{}|{}|{}|{}|", summary, log, exec.join(" "), frames.join(",")), clean: false }
+    RunOut { out: format!("{}|{}|{}|{}||", summary, log, exec.join(" "), frames.join(",")), clean: false }
 }
 
-fn parse_real(s: &str) -> Option<(usize, u64, usize, usize)> {
+fn parse_real(s: &str) -> Option<(usize, u64, usize, usize, u8)> {
     let mut kv = std::collections::HashMap::new();
     for part in s.split(';') {
         let (k, v) = part.split_once('=')?;
         kv.insert(k, v);
     }
-    Some((kv.get("t")?.parse().ok()?, kv.get("p")?.parse().ok()?, kv.get("n")?.parse().ok()?, kv.get("m")?.parse().ok()?))
+    let hs = match kv.get("hs") {
+        None => HS_ALL,
+        Some(v) => parse_hs(v)?,
+    };
+    Some((kv.get("t")?.parse().ok()?, kv.get("p")?.parse().ok()?, kv.get("n")?.parse().ok()?, kv.get("m")?.parse().ok()?, hs))
 }
 
 /* ---------------------------------------------------------------- child processes */
@@ -976,11 +1098,11 @@ pub fn child() {
         let r = match f {
             "app" => match parse_scn(scn) {
                 Some(s) => run_scn(&s),
-                None => RunOut { out: "BADSCN||||".into(), clean: true },
+                None => RunOut { out: "BADSCN|||||".into(), clean: true },
             },
             "real" => match parse_real(scn) {
-                Some((t, p, n, m)) => run_real(t, p, n, m),
-                None => RunOut { out: "BADSCN||||".into(), clean: true },
+                Some((t, p, n, m, hs)) => run_real(t, p, n, m, hs),
+                None => RunOut { out: "BADSCN|||||".into(), clean: true },
             },
             _ => continue,
         };
@@ -1043,7 +1165,7 @@ fn run_batch(jobs: &[(String, String)], wedges: &AtomicU64, max_wedges: u64) -> 
         let _ = writer.join();
         if got == 0 {
             let (f, s) = &jobs[next];
-            res.push((f.clone(), s.clone(), "CHILD-DIED||||".into()));
+            res.push((f.clone(), s.clone(), "CHILD-DIED|||||".into()));
             got = 1;
         }
         next += got;
@@ -1185,6 +1307,7 @@ fn gen_scn(rng: &mut Rng) -> Scn {
         da: rng.below(2) as u8,
         ap: hb.is_some() && rng.chance(3, 4),
         wait_gone: hb.is_some() && rng.chance(2, 3),
+        hs: gen_hs(rng),
         clients,
         tl,
     }
@@ -1214,6 +1337,31 @@ fn directed() -> Vec<String> {
         // eight clients, eight threads, no sleep at all
         "t=8;p=none;h=-;ca=3;da=1;ap=0;q=0;cl=T61,C/T62,C/T63,C/T66,C/B01,C/B02,C/B03/T60;tl=0:c0,0:c1,0:c2,0:c3,0:c4,0:c5,0:c6,0:c7,0:bT7a".into(),
     ]
+    .into_iter()
+    .chain(directed_handlers())
+    .collect()
+}
+
+/// The handlers are optional: the same situations on apps that register only some of them (`hs=`). Whatever is
+/// registered, a client that closes / breaks / times out must leave the table, and later broadcasts, unicasts
+/// and pings must pass it by.
+fn directed_handlers() -> Vec<String> {
+    let mut v: Vec<String> = Vec::new();
+    // a client closes, another stays; afterwards a broadcast, a unicast to the closed one and one to the other
+    for hs in ["m", "-", "cm", "c", "d", "md", "cd", "cmd"] {
+        v.push(format!(
+            "t=2;p=1000;h=-;ca=1;da=1;ap=0;q=0;hs={};cl=T6161,C03e8/T6162,n,n,n,n,n,n,n,n,n,n,n,n,T60;tl=0:c0,0:c1,4000:bT6e657773,0:u0:T78,0:u1:T79",
+            hs
+        ));
+    }
+    // Err other than Close (reserved opcode, truncated frame, abrupt EOF) without a disconnect handler
+    v.push("t=3;p=500;h=-;ca=0;da=1;ap=0;q=0;hs=cm;cl=T61,G/B02,R/T60/T63;tl=0:c0,200:c1,200:c2,0:c3,3000:bB00,0:u0:T7a,0:u1:T7a".into());
+    // heartbeat: a client at EOF times out and is removed, a live one keeps answering pings; nobody is told
+    v.push("t=2;p=1000;h=2.15;ca=1;da=1;ap=1;q=1;hs=m;cl=T61/n,n,n,n,n,n,n,n,n,n,n,n,n,n,n,n,n,n,n,n,n,n,n,n,n,n,n,n,n,n,T62,C;tl=0:c0,0:c1,25000:bT70".into());
+    v.push("t=1;p=500;h=1.12;ca=0;da=0;ap=0;q=1;hs=-;cl=-/T61;tl=0:c0,0:c1,20000:bB01,0:u0:T7a".into());
+    // no message handler: messages are received and dropped, the Close still removes the client
+    v.push("t=1;p=2000;h=-;ca=3;da=1;ap=0;q=0;hs=cd;cl=T6161,f3T626364656667,C/T6262;tl=0:c0,0:c1,3000:bT78".into());
+    v
 }
 
 pub fn gen(out: &mut Out, thorough: bool, seed: u64) {
@@ -1226,7 +1374,12 @@ pub fn gen(out: &mut Out, thorough: bool, seed: u64) {
     let nreal = if thorough { 60 } else { 12 };
     for i in 0..nreal {
         let t = 1 + (i % 4) * 2;
-        jobs.push(("real".into(), format!("t={};p={};n={};m={}", if i % 3 == 0 { 1 } else { t }, [1000, 0, 5000][i % 3], 1 + i % 4, 1 + i % 3)));
+        // the handlers registered: every other run all three, the others walk through the remaining subsets
+        let hs = if i % 2 == 0 { HS_ALL } else { [HS_M, 0, HS_C | HS_M, HS_D, HS_C, HS_M | HS_D, HS_C | HS_D][(i / 2) % 7] };
+        jobs.push((
+            "real".into(),
+            format!("t={};p={};n={};m={};hs={}", if i % 3 == 0 { 1 } else { t }, [1000, 0, 5000][i % 3], 1 + i % 4, 1 + i % 3, hs_text(hs)),
+        ));
     }
     let wedges = AtomicU64::new(0);
     let max_wedges = 4;
@@ -1261,11 +1414,20 @@ pub fn gen(out: &mut Out, thorough: bool, seed: u64) {
                 }
             ));
             out.count(if s.hb.is_some() { "heartbeat_on" } else { "heartbeat_off" });
+            out.count(&format!("handlers={}", hs_text(s.hs)));
+        } else if let Some((_, _, _, _, hs)) = parse_real(&scn) {
+            out.count(&format!("handlers={}", hs_text(hs)));
         }
         let toks: Vec<&str> = log.split(' ').collect();
         let has = |p: &dyn Fn(&str) -> bool| toks.iter().any(|t| p(t));
         if has(&|t| t.starts_with('t')) {
             out.count("runs_with_timeout_disconnect");
+        }
+        if has(&|t| t.starts_with('x')) {
+            out.count("runs_with_removal");
+            if !has(&|t| t.starts_with('d')) {
+                out.count("runs_with_removal_without_disconnect_handler");
+            }
         }
         if has(&|t| t.starts_with('r') && t.ends_with(":E1")) {
             out.count("runs_with_close");
@@ -1308,7 +1470,8 @@ pub fn gen(out: &mut Out, thorough: bool, seed: u64) {
         }
         let iters = toks.iter().filter(|t| t.starts_with('I')).count();
         out.count(&format!("iterations_logged={}", match iters { 0 => "0", 1..=5 => "1-5", 6..=20 => "6-20", 21..=100 => "21-100", _ => ">100" }));
-        let nontrivial = toks.iter().any(|t| t.starts_with('c'));
+        // at least one client was admitted (the connect dispatch `c<a>` exists only with a connect handler)
+        let nontrivial = toks.iter().any(|t| t.starts_with('c') || t.starts_with('a'));
         out.case(&[&f, &scn], &o, nontrivial);
     }
     if done < jobs.len() {
